@@ -1,10 +1,10 @@
 SPECIFICATION Spec
 CONSTANTS
   Mode = "pipe"
-  BsIds = {1, 2, 3}
-  MaxMeas = 5
-  Deltas <- DeltasQuick
-  Diffs = {0, 1}
+  BsIds = {1, 2, 3, 4, 5}
+  MaxMeas = 12
+  Deltas <- DeltasSim
+  Diffs = {0, 1, 2, 3}
   MinBs = {0, 1, 2, 3}
   MaxSamples = 0
   SampleSets <- NoSampleSets
@@ -13,7 +13,4 @@ CONSTANTS
   PrintCases = FALSE
 INVARIANT MatchOK
 INVARIANT EstOK
-INVARIANT PipeMin2AllLinking
-INVARIANT LinkMonotone
-INVARIANT TypeOK
 CHECK_DEADLOCK FALSE
